@@ -19,7 +19,7 @@ from stages.common import *
 
 MON_C08 = {"LegalStep", "EpochMonotone", "FinishedOnlyByLaterComplete", "RejectedKeepsFinished",
            "RejectedLeavesUsable", "InvalidProposalRejected", "StillUsable"}
-MON_C09 = {"C09_SignedBySender", "C09_KeyFromGroup", "C09_Entitled", "C09_SigCoversTerms"}
+MON_C09 = {"C09_SignedBySender", "C09_KeyFromGroup", "C09_Entitled", "C09_SigCoversTerms", "C09_AcceptedUnauthenticated"}
 DRIFT = {"Conformance", "Harness", "Blocked"}
 
 ROLES = ["leader", "member", "leaver", "joiner"]
